@@ -99,9 +99,11 @@ void harness (void)
     e0 = -2147483647L - 1;           c0 = 0;
     e1 = 2147483647L;                c1 = 0;
 #endif
+#if VC_RANGE      /* with arbitrary positions the table value may not fit int32: only safety is asked then */
     VH_CHECK ("sentinel.before.position", (long) blk[0].x == e0);
-    VH_CHECK ("sentinel.before.colour", same_color (&blk[0].color, c0));
     VH_CHECK ("sentinel.after.position", (long) blk[N + 1].x == e1);
+#endif
+    VH_CHECK ("sentinel.before.colour", same_color (&blk[0].color, c0));
     VH_CHECK ("sentinel.after.colour", same_color (&blk[N + 1].color, c1));
     for (i = 0; i < N; i++)
         VH_CHECK ("sentinel.user_stops_untouched", blk[1 + i].x == in_x[i] && same_color (&blk[1 + i].color, in_col[i]));
